@@ -16,6 +16,7 @@ THEOREMS = {n: "Props.C05" for n in [
     "C05_only_handed_out_once", "C05_at_most_ntasks", "C05_pending_is_in_flight", "C05_keeps_full",
     "C05_clean_stop"]}
 ORACLES = [O.oracle_c05]
+LIMIT = 120000      # schedules per configuration (never reached by the configurations below)
 
 
 def nontrivial(rec, ft):
@@ -35,12 +36,14 @@ def run(chk: Check) -> int:
     # --- sampled: all runner kinds, learners, task counts, failures, cancellation
     n = 500 if chk.quick else 6000
     for k in range(n):
+        if col.enough():
+            break
         rng = chk.rng("case", k)
         spec = I.random_spec(rng, faults=rng.random() < 0.35, big=not chk.quick)
         col.add(I.run_case(spec, I.RandomSched(rng)), f"seed{chk.seed}/{k}")
     # --- exhaustive small scope: every schedule (every ordered sub-list of the futures in flight
     #     at every wait, cancellation at every wait, every futures-were-already-running choice)
-    exh = {}
+    exh, truncated = {}, 0
     if chk.quick:
         plans = [(kind, nt, T, T - (1 if T > 1 else 0), "all", True) for kind in I.KINDS for nt in (2,) for T in (3,)]
         plans += [("blocking", 3, 4, 4, "all", False), ("async_coro", 3, 4, 3, "sub", True)]
@@ -55,15 +58,20 @@ def run(chk: Check) -> int:
     for kind, nt, T, goal, orders, cancel in plans:
         spec = base_spec(kind, nt, T, goal, cancel)
         cnt = 0
-        for rec in I.enumerate_scheds(lambda s, spec=spec: I.run_case(spec, s), orders=orders, cancel=cancel):
+        if col.enough():
+            break
+        for rec in I.enumerate_scheds(lambda s, spec=spec: I.run_case(spec, s), orders=orders, cancel=cancel, limit=LIMIT):
             cnt += 1
             col.add(rec, f"exhaustive {kind} ntasks={nt} evals<={T} goal={goal} #{cnt}")
+            if rec.machinery or col.enough():
+                break
         exh[f"{kind} ntasks={nt} evals<={T} goal={goal} cancel={cancel}"] = cnt
+        truncated += cnt >= LIMIT
     col.flush()
     st = col.stats
     chk.extra.update(st)
     chk.extra.update({"exhaustive_schedules_per_config": exh, "exhaustive_small_scope_cases": sum(exh.values()),
-                      "exhaustive": False})
+                      "exhaustive_configs_truncated_at_limit": truncated, "exhaustive": False})
     chk.log(f"runs {st['runs']} (exhaustive {sum(exh.values())}), compared in Coq {st['compared_in_coq']}, "
             f"mismatches {st['mismatches']}, oracle failures {st['oracle_failures']}")
     return chk.finish(
